@@ -555,14 +555,27 @@ class TVHarness(forksym.Harness):
         pdshim.KF_ON.clear()
         pdshim.KF_ON.update(j.get("kf_on", []))
         pdshim.ALLOW_WINDOW_TIES[0] = bool(j.get("allow_window_ties"))
+        C.INF_ON[0] = bool(j.get("inf"))
         tabs = self.tabs()
         add_assumptions(eng, j.get("assume"), tabs)
+        if C.INF_ON[0]:
+            # inf mode (cell.py): +/-infinity are the two extreme values the float input cells can take
+            eng.assume(C.PINF >= 1000000)
+            eng.assume(C.NINF <= -1000000)
+            for cols in tabs.values():
+                for cs in cols.values():
+                    for x in cs:
+                        if x.kind == "f":
+                            eng.assume(zor(x.null, zand(x.val >= C.NINF, x.val <= C.PINF)))
         if j.get("fix_input"):  # replay mode: pin every input cell to a recorded concrete value
             for t, cols in j["fix_input"].items():
                 for c, vals in cols.items():
                     for x, v in zip(tabs[t][c], vals):
                         if v is None:
                             eng.assume(x.null)
+                        elif isinstance(v, float) and v in (float("inf"), float("-inf")):
+                            eng.assume(znot(x.null))
+                            eng.assume(x.val == (C.PINF if v > 0 else C.NINF))
                         else:
                             eng.assume(znot(x.null))
                             eng.assume(x.val == C.coerce(C.lit(v), x.kind).val if x.kind in ("f", "i") and not isinstance(v, (str, bool)) else x.val == C.lit(v).val)
